@@ -420,6 +420,16 @@ def expand_definitions(repo: Repo, fi: FuncInfo, f: tuple) -> tuple:
     return sub(f)
 
 
+_TE_CACHE: Dict[int, TypeEnv] = {}
+
+
+def _type_env(repo: Repo, fi: FuncInfo) -> TypeEnv:
+    k = id(fi.node)
+    if k not in _TE_CACHE:
+        _TE_CACHE[k] = TypeEnv(repo, fi)
+    return _TE_CACHE[k]
+
+
 def must_effect(
     repo: Repo,
     fi: FuncInfo,
@@ -435,7 +445,7 @@ def must_effect(
     happened for X - before statement `before` if given, else by function exit.
     """
     lin = linear(fi.node)
-    env_t = TypeEnv(repo, fi)
+    env_t = _type_env(repo, fi)
     total = FALSE
     for g in lin.stmts:
         if before is not None and g.index >= before.index:
